@@ -50,6 +50,7 @@ func (s *IncSolver) Close() {
 		return
 	}
 	s.in.Close()
+	s.cmd.Process.Kill()
 	s.cmd.Wait()
 }
 
@@ -118,20 +119,32 @@ func (s *IncSolver) Feasible(pc []*Term, extra *Term) bool {
 	for _, t := range all {
 		fmt.Fprintf(&b, "(assert %s)\n", printTerm(t, names))
 	}
-	b.WriteString("(check-sat)\n(pop)\n")
-	io.WriteString(s.in, b.String())
-	line, err := s.out.ReadString('\n')
-	if err != nil {
-		return true
+	marker := fmt.Sprintf("done-%d", s.queries)
+	b.WriteString("(check-sat)\n(pop)\n(echo \"" + marker + "\")\n")
+	if f := os.Getenv("GOVC_INCLOG"); f != "" {
+		fh, _ := os.OpenFile(f, os.O_APPEND|os.O_CREATE|os.O_WRONLY, 0o644)
+		fh.WriteString(b.String())
+		fh.Close()
 	}
-	line = strings.TrimSpace(line)
-	for strings.HasPrefix(line, "(error") {
-		fmt.Fprintln(os.Stderr, "incremental solver:", line)
-		line, err = s.out.ReadString('\n')
+	go io.WriteString(s.in, b.String())
+	line := "unknown"
+	for {
+		l, err := s.out.ReadString('\n')
 		if err != nil {
 			return true
 		}
-		line = strings.TrimSpace(line)
+		l = strings.TrimSpace(l)
+		if l == marker || l == "\""+marker+"\"" {
+			break
+		}
+		if strings.HasPrefix(l, "(error") {
+			fmt.Fprintln(os.Stderr, "incremental solver:", l)
+			line = "unknown"
+			continue
+		}
+		if l == "sat" || l == "unsat" || l == "unknown" {
+			line = l
+		}
 	}
 	r := line != "unsat"
 	s.cache[kb.String()] = r
